@@ -784,6 +784,12 @@ def apply_as_grid_ufunc(
             dask,
             **kwargs,
         )
+        # `other_component` has one entry per input; every result must be padded,
+        # however many inputs there were
+        other_component_per_result = [
+            other_component[i] if i < len(other_component) else None
+            for i in range(len(unpadded_results))
+        ]
         results = _pad_then_rechunk(
             unpadded_results,
             grid,
@@ -791,7 +797,7 @@ def apply_as_grid_ufunc(
             boundary_width_real_axes,
             boundary,
             fill_value,
-            other_component,
+            other_component_per_result,
         )
 
     # TODO add option to trim result if not done in ufunc
